@@ -41,10 +41,10 @@ func decode(b string) (uint64, error) {
 		default:
 			return 0, fmt.Errorf("invalid hex %x", b)
 		}
-		res = (res << 4) | nibble
-		if i == 15 {
-			break
+		if res>>60 != 0 {
+			return 0, fmt.Errorf("hex overflows uint64 %x", b)
 		}
+		res = (res << 4) | nibble
 	}
 	return res, nil
 }
